@@ -36,7 +36,7 @@ ASSUMPTIONS = [
     "underlying iterators without aclose get a neutral context by design: only the item differential is judged for them",
     "closing = aclose awaited exactly once (class-based) / generator frame gone (async generator)",
 ]
-PROBES = ("nested_scope", "inner_exception_caught_outer_continues", "exit_by_exception", "exit_by_cancel", "cancel_inside_tool", "tool_abandoned",
+PROBES = ("cancel_at_block_level_before_first_pull", "nested_scope", "inner_exception_caught_outer_continues", "exit_by_exception", "exit_by_cancel", "cancel_inside_tool", "tool_abandoned",
           "inner_scope_left_then_outer_used", "underlying_without_aclose", "tool_closed_midway")
 
 TOOL_NAMES = ("zip", "map", "filter", "filterfalse", "enumerate", "accumulate", "batched", "chain", "compress",
@@ -82,7 +82,10 @@ def prepare(ch):
     depth = 1
     for _ in range(ch.between(1, 6)):
         # tool | direct pull | enter nested | leave nested | raise inside scope | nested scope that fails and is caught
-        kind = ch.weighted([6, 2, 2, 2, 1, 2])
+        kind = ch.weighted([6, 2, 2, 2, 1, 2, 2])
+        if kind == 6:
+            ops.append(("pause", ch.between(1, 2)))  # the block itself suspends (a crash point outside any pull)
+            continue
         if kind == 5:
             if depth < 3 and len(ops) < 6:
                 ops.append(("enter", 1))
@@ -265,6 +268,10 @@ def run_block(prep, st, mode, pos, interrupts):
                 if app["end"] is None:
                     app["end"] = "partial"
                 i += 1
+            elif op[0] == "pause":
+                for _ in range(op[1]):
+                    await sim.suspend(PAUSE, None, "block")
+                i += 1
             elif op[0] == "raise":
                 raise ScopeError("op %d" % i)
             elif op[0] == "enter":
@@ -374,6 +381,8 @@ def reference(prep, upto_apps):
                 if app["end"] is None:
                     app["end"] = "partial"
                 i += 1
+            elif op[0] == "pause":
+                i += 1
             elif op[0] == "raise":
                 raise ScopeError("op %d" % i)
             elif op[0] == "enter":
@@ -479,6 +488,8 @@ def run_prepared(prep, st, ctx):
             out.faults["cancel"] = 1
             if sim.cancel_fired_at and sim.cancel_fired_at[2] != "block":
                 out.probes["cancel_inside_tool"] = 1
+            elif sim.cancel_fired_at and not res["apps"]:
+                out.probes["cancel_at_block_level_before_first_pull"] = 1
     out.fault_free = mode == 0
     out.nontrivial = (ntools >= 2 or nested) and reached
     out.shape = (fl, len(prep.src.items), tuple((o[0], o[1].shape_key(), o[2], o[3]) if o[0] == "tool" else o
